@@ -148,4 +148,20 @@ def gunzipFull (z : Z) : Bytes → Option Bytes
         | _ => none
   | _ => none
 
+/-! ### file-like bodies: `lib.file_generator` / `lib.file_generator_limited`
+
+  A file object is seen through what its successive `read(n)` calls return (any sizes: pipes, sockets
+  and capped readers return fewer than `n` bytes before the data ends; `b''` means end of file). -/
+
+/-- the chunks `file_generator` yields: every read up to the first empty one -/
+def fileGen : List Bytes → List Bytes
+  | [] => []
+  | r :: rs => if r = [] then [] else r :: fileGen rs
+
+/-- `file_generator_limited(fileobj, count)`: reads while `remaining > 0`, stops at an empty read -/
+def fileGenLimited (remaining : Nat) : List Bytes → List Bytes
+  | [] => []
+  | r :: rs =>
+    if remaining = 0 then [] else if r = [] then [] else r :: fileGenLimited (remaining - r.length) rs
+
 end CpModel.Gzip
